@@ -5,6 +5,7 @@ package main
 // runtime.Caller(0) on the very line that issues the log call.
 
 import (
+	"reflect"
 	"context"
 	"encoding/json"
 	"fmt"
@@ -25,9 +26,18 @@ type c14site struct {
 	pc   uintptr
 	file string
 	line int
+	fn   string // the function the statement belongs to (inlining resolved by runtime.CallersFrames)
 }
 
-func here(pc uintptr, f string, ln int, _ bool) c14site { return c14site{pc, f, ln} }
+// here resolves the position of the statement that called mark* (two frames up from here).
+func here(_ uintptr, _ string, _ int, _ bool) c14site {
+	var pcs [1]uintptr
+	if runtime.Callers(3, pcs[:]) < 1 {
+		return c14site{}
+	}
+	fr, _ := runtime.CallersFrames(pcs[:]).Next()
+	return c14site{pcs[0], fr.File, fr.Line, fr.Function}
+}
 
 // mark records the source position of the expression that calls it - it is written as an argument of the
 // log call itself, so it is on the call's own line whatever gofmt does to the surrounding function - and
@@ -41,9 +51,18 @@ func markV[T any](s *c14site, v T) T { *s = here(runtime.Caller(1)); return v }
 var c14err = fmt.Errorf("an error value")
 
 // small functions the compiler inlines (default build); the log call is their last statement
-func c14inlLast(l slog.Logger, s *c14site)  { l.Info(mark(s), "k", 1) }
-func c14inlInner(l slog.Logger, s *c14site) { l.Warn(mark(s), "k", 2) }
-func c14inlOuter(l slog.Logger, s *c14site) { c14inlInner(l, s) }
+// (each on ONE line: the position of the statement is the position of the function)
+func c14inlLast(l slog.Logger)  { l.Info("m") }
+func c14inlInner(l slog.Logger) { l.Warn("m") }
+func c14inlOuter(l slog.Logger) { c14inlInner(l) }
+
+// c14siteOf returns the position of a one-line function.
+func c14siteOf(f any) c14site {
+	pc := reflect.ValueOf(f).Pointer()
+	fn := runtime.FuncForPC(pc)
+	file, line := fn.FileLine(pc)
+	return c14site{pc, file, line, fn.Name()}
+}
 
 // an errors.v3 error with stack info, created here - far from every log call
 var c14v3err = errorsv3.New("v3 error with a stack")
@@ -84,8 +103,8 @@ func c14entries() []c14entry {
 		{"Info", "native", func(e *c14env) (s c14site) { e.l.Info(mark(&s), "k", 1); return }},
 		{"Error with a stack-carrying error attribute (created elsewhere)", "native", func(e *c14env) (s c14site) { e.l.Error(mark(&s), "err", c14v3err, "k", 1); return }},
 		{"Info from a file whose name needs escaping (//line directive)", "native", c14lineSite},
-		{"Info as the last statement of a small function that the compiler inlines into its caller", "native", func(e *c14env) (s c14site) { c14inlLast(e.l, &s); return }},
-		{"Warn as the last statement of an inlined function, two levels", "native", func(e *c14env) (s c14site) { c14inlOuter(e.l, &s); return }},
+		{"Info as the last statement of a small function that the compiler inlines into its caller", "native", func(e *c14env) (s c14site) { c14inlLast(e.l); return c14siteOf(c14inlLast) }},
+		{"Warn as the last statement of an inlined function, two levels", "native", func(e *c14env) (s c14site) { c14inlOuter(e.l); return c14siteOf(c14inlInner) }},
 		{"second of two records from ONE call site, the first carried a stack-carrying error", "native", func(e *c14env) (s c14site) {
 			for i := 0; i < 2; i++ { e.reset(); e.l.Error(mark(&s), "err", c14errOrText(i == 0), "k", i) }
 			return
@@ -528,7 +547,7 @@ func c14run1(cas c14case) *Violation {
 		return nil // a blank Print/Println is a bare newline (C02); nothing to attribute
 	}
 	wantFile := slog.Safety(site.file)
-	wantFn := runtime.FuncForPC(site.pc).Name()
+	wantFn := site.fn
 	var gotFile, gotFn string
 	var gotLine int
 	switch cas.Format {
